@@ -222,13 +222,16 @@ theorem tree_ne_ts {d : Fd} (h : isTree d) : d ≠ threadSelf := by
 theorem tree_not_odd {d : Fd} (h : isTree d) : ¬ d % 2 = 1 :=
   fun h1 => int_even_not_odd d h.2 h1
 
-theorem run_openat (d : Fd) (hd : 0 ≤ d) (n : Bytes) (fl mode : Nat) :
+theorem tree_ne_fdDir {d : Fd} (h : isTree d) : d ≠ fdDir := by
+  intro he; have := h.2; rw [he] at this; exact absurd this (by decide)
+
+theorem run_openat (d : Fd) (hd : isTree d) (n : Bytes) (fl mode : Nat) :
     Prog.run w (Sys.openat d n fl mode) =
       match w.lookup d n with
       | .ok c => .ok c
       | .error e => .error (.os e) := by
   unfold Sys.openat Sys.openatFollow
-  simp [hotfix_tree hd, World.answer]
+  simp [hotfix_tree (tree_nonneg hd), World.answer, tree_ne_fdDir hd]
   cases w.lookup d n <;> simp
 
 theorem run_fstatat_tree (d : Fd) (hd : isTree d) :
